@@ -646,8 +646,11 @@ def header_layout_rule(chk, cid, prog, cfgname):
                 if text is None:
                     out.append(('?', x))
                     continue
-                for m in re.finditer(r'%\*?(\d+)c', text):
-                    out.append((int(m.group(1)), x))
+                for m in re.finditer(r'%(\*?)(\d*)(?:hh|h|ll|l|L)?([a-zA-Z\[])', text):
+                    if m.group(3) == 'c' and m.group(2):
+                        out.append((int(m.group(2)), x))
+                    else:
+                        out.append(('%' + m.group(1) + m.group(2) + m.group(3), x))     # not a fixed-column read
             elif cn.endswith('DumpLine'):
                 out.append(('NL', x))
             elif cn == 'fgets':
@@ -682,8 +685,15 @@ def header_layout_rule(chk, cid, prog, cfgname):
                 n += 1
                 got = [t for (t, node) in lines[k]]
                 inst = '%s:header-record-%d' % (f.name, k + 2)
+                free = [t for t in got if isinstance(t, str)]
                 if got == want:
                     chk.ok(cid, inst, sample='widths %s' % got)
+                elif free:
+                    node = [nd for (t, nd) in lines[k] if isinstance(t, str)][0]
+                    chk.violate(cid, inst, loc(f, node), f.name,
+                                'header record %d is consumed with the conversion `%s`, which skips white space (line ends included) before it converts and stops at the first blank: '
+                                'a field of the fixed-column record that is blank or completely filled shifts every later field; the format defines the columns %s'
+                                % (k + 2, free[0], want), cfgname=cfgname)
                 else:
                     chk.violate(cid, inst, loc(f, lines[k][min(len(want), len(got) - 1)][1] if got else f.body), f.name,
                                 'header record %d is consumed as fields of width %s; the format defines %s: every later field of the record (or, past its end, '
